@@ -171,12 +171,13 @@ pub mod session {
 pub enum PingState { None, AwaitingResponse { len: u16, since: LocalTime }, Ok }
 pub enum State { Initial, Attempted, Connected { since: LocalTime, ping: PingState, latencies: VecDeque<LocalDuration>, stable: bool }, Disconnected { since: LocalTime, retry_at: LocalTime } }
 /// ASSUMED (localtime): `LocalTime - LocalTime` saturates (never panics)
-/// ASSUMED (localtime): `LocalTime - LocalDuration` saturates at zero
+/// localtime 1.3.1 (checked in the crate source): `LocalTime - LocalDuration` is a plain `u64` subtraction of the
+/// milliseconds -- it panics (debug) or wraps (release) when the duration is larger than the time: precondition.
 impl std::ops::Sub<LocalDuration> for LocalTime { type Output = LocalTime; #[verifier::external_body] fn sub(self, o: LocalDuration) -> LocalTime { unimplemented!() } }
 impl vstd::std_specs::ops::SubSpecImpl<LocalDuration> for LocalTime {
     open spec fn obeys_sub_spec() -> bool { true }
-    open spec fn sub_req(self, o: LocalDuration) -> bool { true }
-    open spec fn sub_spec(self, o: LocalDuration) -> LocalTime { LocalTime { ms: if self.ms >= o.ms { (self.ms - o.ms) as u64 } else { 0 } } }
+    open spec fn sub_req(self, o: LocalDuration) -> bool { self.ms >= o.ms }
+    open spec fn sub_spec(self, o: LocalDuration) -> LocalTime { LocalTime { ms: (self.ms - o.ms) as u64 } }
 }
 impl From<LocalTime> for Timestamp { fn from(t: LocalTime) -> (r: Timestamp) ensures r == Timestamp(t.ms) { Timestamp(t.ms) } }
 impl vstd::std_specs::convert::FromSpecImpl<LocalTime> for Timestamp { open spec fn obeys_from_spec() -> bool { true } open spec fn from_spec(t: LocalTime) -> Timestamp { Timestamp(t.ms) } }
